@@ -49,7 +49,7 @@ def parse_output(out, names):
         r['failed_locs'] += re.findall(r'Failed Checks: .*\n\s*File: "([^"]+)", line (\d+), in (\S+)', b)[:10]
         r['playback'] += re.findall(r'//\s*(-?[\w.]+)\s*\n\s*vec!\[([^\]]*)\]', b)
         r['stubs'] += re.findall(r'- Stub: (.*)', b)
-        if not v and re.search(r'timed out|TIMEOUT', b): r['verdict'] = 'TIMEOUT'
+        if re.search(r'timed out|TIMEOUT|CBMC timed out', b) and not r['failed_checks']: r['verdict'] = 'TIMEOUT'
     if re.search(r'(?m)^Thread \d+: ', out):
         cur = {}
         parts = re.split(r'(?m)^(Thread \d+): ', out)
